@@ -290,7 +290,7 @@ theorem convScalar_none (ty : Char) (s : Str) (h : convScalar ty s = .none) : (s
 theorem convText_cases (ty : Char) (v : Str) :
     (convText ty (some v) = .none ∧ blank (some v) = true) ∨
     (∃ x u u', convText ty (some v) = .val x u ∧ convScalar ty (skipSpaces v) = .val x u') ∨
-    (∃ e, convText ty (some v) = .err e) ∨ convText ty (some v) = .unsup := by
+    (∃ e, convText ty (some v) = .err e ∧ convScalar ty (skipSpaces v) = .err e) ∨ convText ty (some v) = .unsup := by
   unfold convText
   simp only []
   by_cases he : v.isEmpty = true
@@ -306,28 +306,116 @@ theorem convText_cases (ty : Char) (v : Str) :
       have := convScalar_none ty _ hc
       rw [skipSpaces_idem] at this
       simpa [blank] using this
-    | err e => right; right; left; exact ⟨e, rfl⟩
+    | err e => right; right; left; exact ⟨e, rfl, rfl⟩
     | unsup => right; right; right; rfl
+
+/-! ### the letter forms of graph align and clip -/
+
+theorem alignCode_lt (c : Byte) : alignCode c < 4 := by
+  unfold alignCode; simp only []; (repeat' split) <;> decide
+
+theorem align_bits : ∀ f0 f1 f2 f3 : Fin 4,
+    ((((((((0 ||| (f0.val <<< (0 * 2))) % 256) ||| (f1.val <<< (1 * 2))) % 256) ||| (f2.val <<< (2 * 2))) % 256) |||
+      (f3.val <<< (3 * 2))) % 256) = f0.val + 4 * f1.val + 16 * f2.val + 64 * f3.val := by decide
+
+theorem alignLetters_step (c : Byte) (r : Str) (i n : Nat) (h : i < 4) :
+    alignLetters (c :: r) i n = alignLetters r (i + 1) ((n ||| (alignCode c <<< (i * 2))) % 256) := by
+  rw [alignLetters]
+  have : ¬ i ≥ 4 := by omega
+  simp only [this, ↓reduceIte, alignCode]
+
+theorem alignLetters_stop (v : Str) (n : Nat) : alignLetters v 4 n = n := by
+  cases v with
+  | nil => rfl
+  | cons c r => rw [alignLetters]; simp
+
+theorem alignLetters_nil (i n : Nat) : alignLetters [] i n = n := by rw [alignLetters]
+
+/-- the letter loop of the setter computes the documented two-bits-per-axis mask -/
+theorem alignLetters_eq (v : Str) : alignLetters v 0 0 = alignMask v := by
+  have z : alignCode 0 = 0 := by decide
+  have hb := align_bits
+  unfold alignMask
+  match v with
+  | [] => rw [alignLetters_nil]; simp [z]
+  | [a] =>
+    have := hb ⟨_, alignCode_lt a⟩ 0 0 0
+    rw [alignLetters_step _ _ _ _ (by decide : 0 < 4), alignLetters_nil]
+    simp only [List.getD_cons_zero, List.getD_cons_succ, List.getD_nil, z]
+    simpa using this
+  | [a, b] =>
+    have := hb ⟨_, alignCode_lt a⟩ ⟨_, alignCode_lt b⟩ 0 0
+    rw [alignLetters_step _ _ _ _ (by decide : 0 < 4), alignLetters_step _ _ _ _ (by decide : 0 + 1 < 4), alignLetters_nil]
+    simp only [List.getD_cons_zero, List.getD_cons_succ, List.getD_nil, z]
+    simpa using this
+  | [a, b, c] =>
+    have := hb ⟨_, alignCode_lt a⟩ ⟨_, alignCode_lt b⟩ ⟨_, alignCode_lt c⟩ 0
+    rw [alignLetters_step _ _ _ _ (by decide : 0 < 4), alignLetters_step _ _ _ _ (by decide : 0 + 1 < 4),
+      alignLetters_step _ _ _ _ (by decide : 0 + 1 + 1 < 4), alignLetters_nil]
+    simp only [List.getD_cons_zero, List.getD_cons_succ, List.getD_nil, z]
+    simpa using this
+  | a :: b :: c :: d :: r =>
+    have := hb ⟨_, alignCode_lt a⟩ ⟨_, alignCode_lt b⟩ ⟨_, alignCode_lt c⟩ ⟨_, alignCode_lt d⟩
+    rw [alignLetters_step _ _ _ _ (by decide : 0 < 4), alignLetters_step _ _ _ _ (by decide : 0 + 1 < 4),
+      alignLetters_step _ _ _ _ (by decide : 0 + 1 + 1 < 4), alignLetters_step _ _ _ _ (by decide : 0 + 1 + 1 + 1 < 4),
+      alignLetters_stop]
+    simp only [List.getD_cons_zero, List.getD_cons_succ]
+    simpa using this
+
+/-- a clip mask from its four flags -/
+def mk4 (x y z w : Bool) : Nat :=
+  (if x then 1 else 0) + (if y then 2 else 0) + (if z then 4 else 0) + (if w then 8 else 0)
+
+theorem mk4_or : ∀ a b c d a' b' c' d' : Bool,
+    mk4 a b c d ||| mk4 a' b' c' d' = mk4 (a || a') (b || b') (c || c') (d || d') := by decide
+
+theorem clipBit (c : Byte) :
+    (if c == 120 then 1 else if c == 121 then 2 else if c == 122 then 4 else 8) =
+      mk4 (c == 120) (c == 121) (c == 122) (c != 120 && c != 121 && c != 122) := by
+  by_cases h1 : c = 120
+  · subst h1; decide
+  · by_cases h2 : c = 121
+    · subst h2; decide
+    · by_cases h3 : c = 122
+      · subst h3; decide
+      · simp [mk4, h1, h2, h3]
+
+theorem clipLetters_mk (v : Str) (a b c d : Bool) :
+    clipLetters v (mk4 a b c d) =
+      mk4 (a || v.contains 120) (b || v.contains 121) (c || v.contains 122)
+        (d || v.any (fun x => x != 120 && x != 121 && x != 122)) := by
+  induction v generalizing a b c d with
+  | nil => simp [clipLetters]
+  | cons x r ih =>
+    rw [clipLetters, clipBit, mk4_or, ih]
+    simp only [List.contains_cons, List.any_cons, Bool.or_assoc]
+    have e : ∀ k : Byte, (x == k) = (k == x) := fun k => by cases h : (x == k) <;> cases h2 : (k == x) <;> simp_all
+    congr 1 <;> simp [e]
+
+/-- the letter loop of the clip setter computes the set of named axes -/
+theorem clipLetters_eq (v : Str) : clipLetters v 0 = clipMask v := by
+  have := clipLetters_mk v false false false false
+  simpa [mk4, clipMask] using this
 
 /-! ### set then get -/
 
 /-- handlers that store into one member that a table row shows as it is -/
 def Act.plainField : Act → Option Nat
   | .conv _ f => some f | .string f => some f | .colour f _ => some f | .lattr f _ _ _ _ => some f
-  | .axisPos f => some f | .linePos f => some f | _ => none
+  | .axisPos f => some f | .linePos f => some f | .align f => some f | _ => none
 
 /-- S-level type of the property a handler sets (point coordinates and clip names need the table) -/
 def Act.pty : Act → PTy
   | .conv ty _ => .scalar ty | .string _ => .string | .colour _ _ => .colour
   | .lattr _ _ lo hi _ => .ranged lo hi | .axisPos _ => .firstChar | .linePos _ => .scalar 'f'
   | .fpoint _ lo hi _ => .point lo hi | .intervals _ _ _ => .countOrLog | .align _ => .alignFlags
-  | .clip _ => .clipAxes []
+  | .clip _ => .clipAxes
 
 /-- what a handler stores for blank text -/
 def Act.blankVal (k : Kind) (a : Act) (o : Obj) : Val :=
   match a with
   | .conv _ f => k.dflt f | .colour f _ => o.get f | .lattr _ d _ _ _ => .int d | .axisPos f => k.dflt f
-  | .linePos _ => .flt ⟨0, 0⟩ | _ => .int 0
+  | .linePos _ => .flt ⟨0, 0⟩ | .align f => k.dflt f | _ => .int 0
 
 theorem setString_get (o : Obj) (f : Nat) (v : Option Str) (tok : Nat) (h : f < o.vals.length) :
     (setString o f v tok).get f = .str (match v with | some (c :: r) => some (c :: r) | _ => none) := by
@@ -347,7 +435,7 @@ theorem Act.set_get (k : Kind) (tab : List NamedColor) (a : Act) (f : Nat) (hpf 
     subst hpf
     unfold Act.run at hok ⊢
     simp only [Act.pty, denote, Act.blankVal] at hok ⊢
-    rcases convText_cases ty v with ⟨hc, hb⟩ | ⟨x, u, u', hc, hs⟩ | ⟨e, hc⟩ | hc
+    rcases convText_cases ty v with ⟨hc, hb⟩ | ⟨x, u, u', hc, hs⟩ | ⟨e, hc, hse⟩ | hc
     · right; simp only [hc, Obj.get_put _ _ _ hf, hb, and_self]
     · left; simp only [hc, hs, Obj.get_put _ _ _ hf, List.mem_singleton, exists_eq_left]
     · simp [hc, Ret.isOk] at hok
@@ -376,7 +464,7 @@ theorem Act.set_get (k : Kind) (tab : List NamedColor) (a : Act) (f : Nat) (hpf 
     unfold Act.run at hok ⊢
     simp only [Act.pty, denote, Act.blankVal] at hok ⊢
     unfold lattrText at hok ⊢
-    rcases convText_cases 'y' v with ⟨hc, hb⟩ | ⟨x, u, u', hc, hs⟩ | ⟨e, hc⟩ | hc
+    rcases convText_cases 'y' v with ⟨hc, hb⟩ | ⟨x, u, u', hc, hs⟩ | ⟨e, hc, hse⟩ | hc
     · right; simp only [hc, Obj.get_put _ _ _ hf, hb, and_self]
     · -- unsigned reading
       simp only [hc] at hok ⊢
@@ -405,7 +493,7 @@ theorem Act.set_get (k : Kind) (tab : List NamedColor) (a : Act) (f : Nat) (hpf 
       | _ => simp [Ret.isOk] at hok
     · -- signed reading after the unsigned one failed
       simp only [hc] at hok ⊢
-      rcases convText_cases 'i' v with ⟨hc2, hb⟩ | ⟨x, u, u', hc2, hs⟩ | ⟨e2, hc2⟩ | hc2
+      rcases convText_cases 'i' v with ⟨hc2, hb⟩ | ⟨x, u, u', hc2, hs⟩ | ⟨e2, hc2, _⟩ | hc2
       · right; simp only [hc2, Obj.get_put _ _ _ hf, hb, and_self]
       · simp only [hc2] at hok ⊢
         cases x with
@@ -431,16 +519,115 @@ theorem Act.set_get (k : Kind) (tab : List NamedColor) (a : Act) (f : Nat) (hpf 
     cases hs : skipSpaces v with
     | nil => right; simp [blank, hs, Obj.get_put _ _ _ hf]
     | cons b r => left; simp [Obj.get_put _ _ _ hf]
+  case align f' =>
+    subst hpf
+    unfold Act.run at hok ⊢
+    simp only [Act.pty, denote, Act.blankVal] at hok ⊢
+    rcases convText_cases 'y' v with ⟨hc, hb⟩ | ⟨x, u, u', hc, hs⟩ | ⟨e, hc, hse⟩ | hc
+    · right; simp only [hc, Obj.get_put _ _ _ hf, hb, and_self]
+    · left; simp only [hc, hs, Obj.get_put _ _ _ hf, List.mem_singleton, exists_eq_left]
+    · left
+      simp only [hc, hse, Obj.get_put _ _ _ hf, List.mem_singleton, exists_eq_left, Option.getD_some, alignLetters_eq]
+    · simp [hc, Ret.isOk] at hok
   case linePos f' =>
     subst hpf
     unfold Act.run at hok ⊢
     simp only [Act.pty, denote, Act.blankVal] at hok ⊢
-    rcases convText_cases 'f' v with ⟨hc, hb⟩ | ⟨x, u, u', hc, hs⟩ | ⟨e, hc⟩ | hc
+    rcases convText_cases 'f' v with ⟨hc, hb⟩ | ⟨x, u, u', hc, hs⟩ | ⟨e, hc, hse⟩ | hc
     · right; simp only [hc, Obj.get_put _ _ _ hf, hb, and_self]
     · left; simp only [hc, hs, Obj.get_put _ _ _ hf, List.mem_singleton, exists_eq_left]
     · simp only [hc] at hok
       cases e <;> simp only [] at hok <;> (try split at hok) <;> simp [Ret.isOk] at hok
     · simp [hc, Ret.isOk] at hok
+
+/-! ### set then get: graph clip -/
+
+theorem convScalar_y_int (s : Str) (x : Val) (u : Nat) (h : convScalar 'y' s = .val x u) :
+    ∃ n : Nat, x = .int n := by
+  unfold convScalar at h
+  simp only [] at h
+  cases hu : convUint 0 255 s with
+  | val y w =>
+    rw [hu] at h
+    simp only [Conv.val.injEq] at h
+    unfold convUint at hu
+    split at hu
+    · cases hu
+    · simp only [] at hu
+      cases hm : strtoMag 0 (takeSign (skipSpaces s)).2.1 with
+      | none => rw [hm] at hu; simp only [] at hu; split at hu <;> cases hu
+      | some p =>
+        obtain ⟨m, c⟩ := p
+        rw [hm] at hu
+        simp only [] at hu
+        (repeat' split at hu) <;> first | (cases hu; done) | skip
+        simp only [Conv.val.injEq] at hu
+        exact ⟨m, by rw [← h.1, ← hu.1]⟩
+  | none => rw [hu] at h; cases h
+  | err e => rw [hu] at h; cases h
+  | unsup => rw [hu] at h; cases h
+
+/-- **set then get, graph clip** (member level): an accepted text leaves the mask the text denotes — the number
+    of a numeral, else the set of axis letters — or the text is blank and the default is stored -/
+theorem Act.set_get_clip (k : Kind) (tab : List NamedColor) (f : Nat) (o : Obj) (v : Str) (tok : Nat)
+    (hf : f < o.vals.length) (hok : ((Act.clip f).run k tab o (.text (some v)) tok).ret.isOk = true) :
+    (∃ n : Nat, showClip n ∈ denote tab .clipAxes (o.get f) v ∧
+        ((Act.clip f).run k tab o (.text (some v)) tok).obj.get f = .int n) ∨
+    (blank (some v) = true ∧ ((Act.clip f).run k tab o (.text (some v)) tok).obj.get f = k.dflt f) := by
+  unfold Act.run at hok ⊢
+  simp only [denote] at hok ⊢
+  rcases convText_cases 'y' v with ⟨hc, hb⟩ | ⟨x, u, u', hc, hs⟩ | ⟨e, hc, hse⟩ | hc
+  · right; simp only [hc, Obj.get_put _ _ _ hf, hb, and_self]
+  · left
+    obtain ⟨n, rfl⟩ := convScalar_y_int _ _ _ hs
+    refine ⟨n, ?_, ?_⟩
+    · simp only [hs, Int.toNat_natCast, List.mem_singleton]
+    · simp only [hc, Obj.get_put _ _ _ hf]
+  · left
+    refine ⟨clipMask v, ?_, ?_⟩
+    · simp only [hse, List.mem_singleton]
+    · simp only [hc, Obj.get_put _ _ _ hf, Option.getD_some, clipLetters_eq]
+  · simp [hc, Ret.isOk] at hok
+
+/-- the clip row of the getter: its own member, shown through the alias table -/
+def Kind.clipRow (k : Kind) (i f : Nat) : Bool :=
+  match k.gets[i]?, k.clipAlias with
+  | some g, some (nm, names) =>
+    g.field == f && g.ty != -2 && nm == g.name &&
+      (match k.logAt with | some (idx, _, _) => idx != i | none => true) &&
+      names == (List.range names.length).map clipText && names.length == 8
+  | _, _ => false
+
+theorem Kind.getAt_clip (k : Kind) (o : Obj) (i f n : Nat) (h : k.clipRow i f = true) (hv : o.get f = .int n) :
+    ∃ g, k.gets[i]? = some g ∧ k.getAt o i = some (g.name, showClip n) := by
+  unfold Kind.clipRow at h
+  cases hg : k.gets[i]? with
+  | none => simp [hg] at h
+  | some g =>
+    cases hc : k.clipAlias with
+    | none => simp [hg, hc] at h
+    | some t =>
+      obtain ⟨nm, names⟩ := t
+      simp only [hg, hc, Bool.and_eq_true, beq_iff_eq, bne_iff_ne, ne_eq] at h
+      obtain ⟨⟨⟨⟨⟨hf, hty⟩, hnm⟩, hlog⟩, hnames⟩, hlen⟩ := h
+      refine ⟨g, rfl, ?_⟩
+      have fin : (if n < names.length then Val.str (some (names.getD n [])) else Val.int ↑n) = showClip n := by
+        unfold showClip
+        by_cases hn : n < 8
+        · simp only [hlen, hn, ↓reduceIte]
+          rw [hnames]
+          simp [List.getD_eq_getElem?_getD, hlen, hn]
+        · simp only [hlen, hn, ↓reduceIte]
+      unfold Kind.getAt Kind.readEntry
+      cases hl : k.logAt with
+      | none =>
+        simp only [hg, hty, ↓reduceIte, hf, hv, hc, hnm, Int.toNat_natCast]
+        rw [fin]
+      | some t =>
+        obtain ⟨idx, flags, bit⟩ := t
+        have hne : ¬ idx = i := by simpa [hl] using hlog
+        simp only [hg, hty, ↓reduceIte, hf, hv, hc, hnm, hne, false_and, Int.toNat_natCast]
+        rw [fin]
 
 /-! ### reset of one property -/
 
